@@ -10,6 +10,7 @@ import (
 	"fmt"
 	"io"
 	"strconv"
+	"strings"
 	"sync"
 
 	"golang.org/x/crypto/bcrypt"
@@ -78,9 +79,11 @@ func password(r *hx.Rand) []byte {
 	var n int
 	switch r.Intn(6) {
 	case 0:
-		n = r.PickInt(0, 1, 55, 56, 57, 70, 71, 72, 73, 74, 80)
+		n = r.PickInt(0, 1, 55, 56, 57, 70, 71, 72, 72, 72, 73, 74, 80)
 	case 1:
 		n = r.Range(60, 80)
+	case 2:
+		n = 72 // exactly the longest password GenerateFromPassword accepts
 	default:
 		n = r.Range(0, 40)
 	}
@@ -190,6 +193,11 @@ func gen(g *hx.Gen) {
 			}
 		}
 		g.Stat("op.gen")
+		if len(pw) == 72 {
+			g.Stat("gen.pw-exactly-72")
+		} else if len(pw) > 72 {
+			g.Stat("gen.pw-over-72")
+		}
 		g.Emit("gen pw=%s cost=%d rnd=%s", hx.Hex(pw), cost, hx.Hex(rnd))
 		if cost >= 4 && cost <= 6 && len(pw) <= 72 {
 			h, err := generate(pw, cost, rnd)
@@ -298,6 +306,17 @@ func gen(g *hx.Gen) {
 
 func exec(line string) string {
 	o := hx.Parse(line)
+	r := exec1(o)
+	if o.Has("expect") {
+		if strings.HasSuffix(r, "cmp="+o.Str("expect")) {
+			return r + " kat=ok"
+		}
+		return r + " kat=IMPL-MISMATCH"
+	}
+	return r
+}
+
+func exec1(o hx.Op) string {
 	switch o.Cmd {
 	case "gen":
 		h, err := generate(o.Hex("pw"), o.Int("cost"), o.Hex("rnd"))
